@@ -24,12 +24,12 @@
 EXTENDS C20_Files, IOUtils
 
 Trace == JsonDeserialize(IOEnv.TRACE_FILE)
-VARIABLES l, bad, drift
+VARIABLES l, bad, drift, xdocs
 Ev == Trace[l]
 Flag(clause, w) == Append(bad, [i |-> l, clause |-> clause, w |-> w])
 Some(S) == LET s == SetToSeq(S) IN SubSeq(s, 1, IF Len(s) < 4 THEN Len(s) ELSE 4)
 
-TInit == /\ l = 1 /\ bad = <<>> /\ drift = <<>>
+TInit == /\ l = 1 /\ bad = <<>> /\ drift = <<>> /\ xdocs = <<>>
          /\ fs = Inits[1].fs /\ db = Inits[1].db /\ loaded = PsNoMap
          /\ want = [f \in Files |-> PsReadValue(fs, f)] /\ act = NoAct /\ reply = NoReply
 
@@ -72,10 +72,11 @@ THist == /\ Ev.op \in HistOps
                  /\ drift' = IF ~ProjFsOK THEN Note("fs") ELSE IF ~ProjDbOK THEN Note("db")
                              ELSE IF ~ProjMemoOK THEN Note("memo") ELSE drift
             ELSE /\ UNCHANGED vars /\ bad' = Flag("ModelDisabled", <<>>) /\ drift' = drift
+         /\ UNCHANGED xdocs
 TReset == /\ Ev.op = "Reset"
           /\ fs' = Inits[Ev.init].fs /\ db' = Inits[Ev.init].db /\ loaded' = PsNoMap
           /\ want' = [f \in Files |-> PsReadValue(Inits[Ev.init].fs, f)]
-          /\ act' = A("Reset") /\ reply' = NoReply /\ UNCHANGED <<bad, drift>>
+          /\ act' = A("Reset") /\ reply' = NoReply /\ UNCHANGED <<bad, drift, xdocs>>
 
 \* ---- 2. shipped data -----------------------------------------------------------------
 ShippedClause == LET ideal == PsSide(Ev.name, Ev.kind, Ev.n) IN
@@ -85,9 +86,24 @@ ShippedClause == LET ideal == PsSide(Ev.name, Ev.kind, Ev.n) IN
 TShipped == /\ Ev.op = "Shipped"
             /\ \E c \in {ShippedClause} :
                   bad' = IF c = "" THEN bad ELSE Flag(c, Some(PsWrong(Ev.perms, PsSide(Ev.name, Ev.kind, Ev.n))))
-            /\ UNCHANGED vars /\ drift' = drift
+            /\ UNCHANGED vars /\ drift' = drift /\ UNCHANGED xdocs
+
+\* ---- 3. documents beyond the data sets of the model ------------------------------------
+\* write_json_to_file(doc, f) / read_bisc_file(f) on dictionaries the history machine has no name for (long
+\* permutations, unusual keys, empty lists): a document is the sequence of its [k, perms] rows in key order, a file
+\* holds the document last written to it, and a read returns exactly that document.
+XLast(f) == LET idx == {i \in DOMAIN xdocs : xdocs[i].f = f} IN
+            IF idx = {} THEN <<>> ELSE xdocs[CHOOSE i \in idx : \A j \in idx : j <= i].doc
+XWritten(f) == \E i \in DOMAIN xdocs : xdocs[i].f = f
+TWriteDoc == /\ Ev.op = "WriteDoc"
+             /\ xdocs' = Append(xdocs, [f |-> Ev.f, doc |-> Ev.doc])
+             /\ UNCHANGED <<vars, bad, drift>>
+TReadDoc == /\ Ev.op = "ReadDoc"
+            /\ bad' = IF ~XWritten(Ev.f) THEN Flag("ModelDisabled", <<>>)
+                      ELSE IF Ev.res = XLast(Ev.f) THEN bad ELSE Flag("ReadYourLastWrite", <<>>)
+            /\ UNCHANGED <<vars, drift, xdocs>>
 
 TNext == /\ l <= Len(Trace) /\ l' = l + 1
-         /\ (THist \/ TReset \/ TShipped)
+         /\ (THist \/ TReset \/ TShipped \/ TWriteDoc \/ TReadDoc)
 TraceDone == l = Len(Trace) + 1 => PrintT(ToJson([verdict |-> bad, drift |-> drift, n |-> Len(Trace)]))
 =============================================================================
